@@ -36,16 +36,36 @@ theorem complete_dashed {env : Env} {st : Store} {m : Manifest} (h : ∀ l ∈ m
     · subst e; exact h0
   · subst hl; exact h m.config (by simp [Manifest.all])
 
+/-- the guard on a create request about layers that `createModel` may drop while nothing stored references
+    them (auto-detected template / parameters layers; finding N2) — `Apart` on what `baseLayers` returns;
+    `True` for every other operation -/
+def ApartOp (env : Env) (st : Store) : Op → Choice → Prop
+  | .create r, ch => ApartReq env st r ch.frev
+  | _, _ => True
+
+theorem apartOp_of_fixKeep {env : Env} (hv : env.v.fixKeep = true) (st : Store) (op : Op) (ch : Choice) :
+    ApartOp env st op ch := by
+  cases op <;> simp only [ApartOp]
+  exact fun b _ => apart_of_fixKeep hv _ _ _
+
+/-- every `create … from` meets the guard: its base layers are all in use by the source manifest -/
+theorem apartOp_of_from {env : Env} (hinj : HashInj env) {st : Store} (hc : Guard env st) (hb : BlobsOk env st)
+    (r : CreateReq) (hf : ∀ d ∈ r.files, GD env d) (hsrc : r.src.isSome = true) (ch : Choice) :
+    ApartOp env st (.create r) ch := by
+  simp only [ApartOp, ApartReq]
+  intro b hbase
+  exact apart_of_inUse r (((baseLayers_spec hinj hc hb r hf ch.frev).2 b hbase).2 hsrc)
+
 /-- one proof for both variants of F16a: `Guard`/`GuardOp` are `True` when the repair is in, and the
     `sha256:` spelling conditions on the pinned tree -/
 theorem step_good {env : Env} (hinj : HashInj env) {st : Store} (hc : Guard env st) (hi : Inv env st)
-    (op : Op) (ho : GuardOp env op) (ch : Choice) :
+    (op : Op) (ho : GuardOp env op) (ch : Choice) (ha : ApartOp env st op ch) :
     Good env st (step env st op ch).1 (targets env st op ch) := by
   obtain ⟨hb, hn⟩ := hi
   cases op with
   | upload d c => exact upload_good hb hc d c
   | create r =>
-    exact (createAt_good hinj hb hc r (fun d hd => ho.imp id (fun h => h d hd)) _ _).1
+    exact (createAt_good hinj hb hc r (fun d hd => ho.imp id (fun h => h d hd)) _ _ ha).1
   | copy s d => exact copyAt_good hb hc hn _ _
   | delete n => exact deleteAt_good hb hc _
   | prune => exact pruneStartup_good hb hc
@@ -82,20 +102,22 @@ theorem step_good {env : Env} (hinj : HashInj env) {st : Store} (hc : Guard env 
     and the spelling condition are preserved by upload, create, copy, delete and the startup prune (and by the
     non-API fault operations plant/corrupt). -/
 theorem op_preserves_NameInv {env : Env} (hv : env.v.fixAlias = false) (hinj : HashInj env) (st : Store)
-    (hc : Canonical st) (hi : Inv env st) (op : Op) (ho : CanonOp op) (ch : Choice) :
+    (hc : Canonical st) (hi : Inv env st) (op : Op) (ho : CanonOp op) (ch : Choice)
+    (ha : ApartOp env st op ch) :
     Inv env (step env st op ch).1 ∧ Canonical (step env st op ch).1 :=
-  let g := step_good hinj (Or.inr hc) hi op (Or.inr ho) ch
+  let g := step_good hinj (Or.inr hc) hi op (Or.inr ho) ch ha
   ⟨⟨g.blobsOk, g.nameInv hi.2⟩, g.canon.resolve_left (by simp [hv])⟩
 
 /-- **Operations on one model never damage another — pinned.**  Under the same guard: the manifest file of
     every name other than the operation's (resolved) target is unchanged, and every blob that such a readable
     manifest points to is still there with the same bytes. -/
 theorem op_frame {env : Env} (hinj : HashInj env) (st : Store) (hc : Canonical st) (hi : Inv env st)
-    (op : Op) (ho : CanonOp op) (ch : Choice) (n : Name) (hn : n ∉ targets env st op ch) :
+    (op : Op) (ho : CanonOp op) (ch : Choice) (ha : ApartOp env st op ch) (n : Name)
+    (hn : n ∉ targets env st op ch) :
     (step env st op ch).1.man n = st.man n ∧
     ∀ m, st.man n = some (.readable m) → ∀ l ∈ m.all, ∀ c,
       st.blob l.digest.key = some c → (step env st op ch).1.blob l.digest.key = some c :=
-  let g := step_good hinj (Or.inr hc) hi op (Or.inr ho) ch
+  let g := step_good hinj (Or.inr hc) hi op (Or.inr ho) ch ha
   ⟨g.frameMan n hn, fun m hm l hl c h => g.frameBlob n m hn hm l hl c h⟩
 
 /-- histories -/
@@ -103,15 +125,87 @@ def run (env : Env) : Store → List (Op × Choice) → Store
   | st, [] => st
   | st, (op, ch) :: rest => run env (step env st op ch).1 rest
 
+/-- the guards along a history -/
+def RunGuard (env : Env) : Store → List (Op × Choice) → Prop
+  | _, [] => True
+  | st, (op, ch) :: rest => CanonOp op ∧ ApartOp env st op ch ∧ RunGuard env (step env st op ch).1 rest
+
 theorem history_preserves_Inv {env : Env} (hv : env.v.fixAlias = false) (hinj : HashInj env)
-    (ops : List (Op × Choice)) (ho : ∀ p ∈ ops, CanonOp p.1) (st : Store) (hc : Canonical st)
+    (ops : List (Op × Choice)) (st : Store) (ho : RunGuard env st ops) (hc : Canonical st)
     (hi : Inv env st) : Inv env (run env st ops) ∧ Canonical (run env st ops) := by
   induction ops generalizing st with
   | nil => exact ⟨hi, hc⟩
   | cons p rest ih =>
     obtain ⟨op, ch⟩ := p
-    obtain ⟨hi', hc'⟩ := op_preserves_NameInv hv hinj st hc hi op (ho (op, ch) (by simp)) ch
-    exact ih (fun q hq => ho q (by simp [hq])) _ hc' hi'
+    obtain ⟨h1, h2, h3⟩ := ho
+    obtain ⟨hi', hc'⟩ := op_preserves_NameInv hv hinj st hc hi op h1 ch h2
+    exact ih _ h3 hc' hi'
+
+/-! ### the guards are decidable: Boolean versions -/
+
+def apartLayersB (env : Env) (st : Store) (ls : List Layer) (r : CreateReq) : Bool :=
+  ls.all (fun a =>
+    !(a.media == .template || a.media == .system || a.media == .params) || env.v.fixKeep ||
+    env.inUse st a.digest ||
+    (ls.all (fun x => x.media == a.media || x.digest.key != a.digest.key) &&
+     (earlier r a.media).all (fun c => env.hash c != a.digest.key)))
+
+theorem apart_of_B {env : Env} {st : Store} {ls : List Layer} {r : CreateReq}
+    (h : apartLayersB env st ls r = true) : Apart env st ls r := by
+  intro a ha hm
+  unfold apartLayersB at h
+  rw [List.all_eq_true] at h
+  have := h a ha
+  simp only [Bool.or_eq_true, Bool.not_eq_true', Bool.and_eq_true, List.all_eq_true, beq_iff_eq, bne_iff_ne,
+    ne_eq] at this
+  rcases this with ((hno | hk) | hu) | ⟨h1, h2⟩
+  · rcases hm with hm | hm | hm <;> simp [hm] at hno
+  · exact Or.inl hk
+  · exact Or.inr (Or.inl hu)
+  · refine Or.inr (Or.inr ⟨fun x hx hxm => ?_, fun c hc => h2 c hc⟩)
+    rcases h1 x hx with h' | h'
+    · exact absurd h' hxm
+    · exact h'
+
+def apartOpB (env : Env) (st : Store) : Op → Choice → Bool
+  | .create r, ch =>
+    match (baseLayers env st r ch.frev).2.1 with
+    | some b => apartLayersB env (baseLayers env st r ch.frev).1 (b.map (·.1)) r
+    | none => true
+  | _, _ => true
+
+theorem apartOp_of_B {env : Env} {st : Store} {op : Op} {ch : Choice} (h : apartOpB env st op ch = true) :
+    ApartOp env st op ch := by
+  cases op <;> simp only [ApartOp]
+  rename_i r
+  intro b hb
+  simp only [apartOpB, hb] at h
+  exact apart_of_B h
+
+def canonOpB : Op → Bool
+  | .create r => r.files.all (fun d => d.form == .colon)
+  | .dashify _ => false
+  | _ => true
+
+theorem canonOp_of_B {op : Op} (h : canonOpB op = true) : CanonOp op := by
+  cases op <;> simp only [CanonOp] <;> simp only [canonOpB] at h
+  · intro d hd
+    rw [List.all_eq_true] at h
+    simpa using h d hd
+  · cases h
+
+def runGuardB (env : Env) : Store → List (Op × Choice) → Bool
+  | _, [] => true
+  | st, (op, ch) :: rest => canonOpB op && apartOpB env st op ch && runGuardB env (step env st op ch).1 rest
+
+theorem runGuard_of_B {env : Env} (ops : List (Op × Choice)) (st : Store) (h : runGuardB env st ops = true) :
+    RunGuard env st ops := by
+  induction ops generalizing st with
+  | nil => trivial
+  | cons p rest ih =>
+    obtain ⟨op, ch⟩ := p
+    simp only [runGuardB, Bool.and_eq_true] at h
+    exact ⟨canonOp_of_B h.1.1, apartOp_of_B h.1.2, ih _ h.2⟩
 
 theorem empty_Inv (env : Env) : Inv env Store.empty ∧ Canonical Store.empty := by
   refine ⟨⟨?_, ?_⟩, ?_⟩
@@ -146,25 +240,35 @@ theorem prune_exact (env : Env) (st : Store) (hc : Canonical st) (hnc : st.hasCo
 /-- **Every readable model stays complete — F16a repaired, no guard.**  For every store (digest strings in
     any spelling), every operation (including the injected plant / corrupt / dashify) and every iteration
     order. -/
-theorem op_preserves_NameInv_fixed {env : Env} (hv : env.v.fixAlias = true) (hinj : HashInj env) (st : Store)
-    (hi : Inv env st) (op : Op) (ch : Choice) : Inv env (step env st op ch).1 :=
-  let g := step_good hinj (Or.inl hv) hi op (Or.inl hv) ch
+theorem op_preserves_NameInv_fixed {env : Env} (hv : env.v.fixAlias = true) (hk : env.v.fixKeep = true)
+    (hinj : HashInj env) (st : Store) (hi : Inv env st) (op : Op) (ch : Choice) :
+    Inv env (step env st op ch).1 :=
+  let g := step_good hinj (Or.inl hv) hi op (Or.inl hv) ch (apartOp_of_fixKeep hk st op ch)
   ⟨g.blobsOk, g.nameInv hi.2⟩
 
 /-- **Operations on one model never damage another — F16a repaired, no guard.** -/
-theorem op_frame_fixed {env : Env} (hv : env.v.fixAlias = true) (hinj : HashInj env) (st : Store)
-    (hi : Inv env st) (op : Op) (ch : Choice) (n : Name) (hn : n ∉ targets env st op ch) :
+theorem op_frame_fixed {env : Env} (hv : env.v.fixAlias = true) (hk : env.v.fixKeep = true)
+    (hinj : HashInj env) (st : Store) (hi : Inv env st) (op : Op) (ch : Choice) (n : Name)
+    (hn : n ∉ targets env st op ch) :
     (step env st op ch).1.man n = st.man n ∧
     ∀ m, st.man n = some (.readable m) → ∀ l ∈ m.all, ∀ c,
       st.blob l.digest.key = some c → (step env st op ch).1.blob l.digest.key = some c :=
-  let g := step_good hinj (Or.inl hv) hi op (Or.inl hv) ch
+  let g := step_good hinj (Or.inl hv) hi op (Or.inl hv) ch (apartOp_of_fixKeep hk st op ch)
   ⟨g.frameMan n hn, fun m hm l hl c h => g.frameBlob n m hn hm l hl c h⟩
 
-theorem history_preserves_Inv_fixed {env : Env} (hv : env.v.fixAlias = true) (hinj : HashInj env)
-    (ops : List (Op × Choice)) (st : Store) (hi : Inv env st) : Inv env (run env st ops) := by
+/-- F16a repaired but N2 not: the only guard left is `ApartOp` (about creates with auto-detected layers) -/
+theorem op_preserves_NameInv_fixedAlias {env : Env} (hv : env.v.fixAlias = true) (hinj : HashInj env)
+    (st : Store) (hi : Inv env st) (op : Op) (ch : Choice) (ha : ApartOp env st op ch) :
+    Inv env (step env st op ch).1 :=
+  let g := step_good hinj (Or.inl hv) hi op (Or.inl hv) ch ha
+  ⟨g.blobsOk, g.nameInv hi.2⟩
+
+theorem history_preserves_Inv_fixed {env : Env} (hv : env.v.fixAlias = true) (hk : env.v.fixKeep = true)
+    (hinj : HashInj env) (ops : List (Op × Choice)) (st : Store) (hi : Inv env st) :
+    Inv env (run env st ops) := by
   induction ops generalizing st with
   | nil => exact hi
-  | cons p rest ih => exact ih _ (op_preserves_NameInv_fixed hv hinj st hi p.1 p.2)
+  | cons p rest ih => exact ih _ (op_preserves_NameInv_fixed hv hk hinj st hi p.1 p.2)
 
 /-- **Startup prune is exact — F16a repaired, no guard** (only: every manifest parses, else prune is skipped). -/
 theorem prune_exact_fixed {env : Env} (hv : env.v.fixAlias = true) (st : Store) (hnc : st.hasCorrupt = false)
@@ -180,7 +284,8 @@ theorem prune_exact_fixed {env : Env} (hv : env.v.fixAlias = true) (st : Store) 
     with the same bytes.  (On the pinned tree the premise does not exclude a later success: witness below.) -/
 theorem failed_create_changes_nothing_fixed {env : Env} (hv : env.v.fixReturn = true) (hinj : HashInj env)
     (st : Store) (hc : Guard env st) (hi : Inv env st) (r : CreateReq) (ho : GuardOp env (.create r))
-    (ch : Choice) (hfail : ∃ e ∈ (step env st (.create r) ch).2, e ≠ "s") :
+    (ch : Choice) (ha : ApartOp env st (.create r) ch)
+    (hfail : ∃ e ∈ (step env st (.create r) ch).2, e ≠ "s") :
     "s" ∉ (step env st (.create r) ch).2 ∧
     (∀ n, (step env st (.create r) ch).1.man n = st.man n) ∧
     ∀ n m, st.man n = some (.readable m) → ∀ l ∈ m.all, ∀ c,
@@ -194,7 +299,7 @@ theorem failed_create_changes_nothing_fixed {env : Env} (hv : env.v.fixReturn = 
       exact absurd he hne
     · exact h
   have bs := (createAt_good hinj hi.1 hc r (fun d hd => ho.imp id (fun h => h d hd))
-    (resolveName env st ch.ord1 r.name) ch.frev).2 hs
+    (resolveName env st ch.ord1 r.name) ch.frev ha).2 hs
   exact ⟨hs, fun n => man_congr bs.mans n, fun n m hm l hl c h => bs.keep hm hl h⟩
 
 /-! ## letter case -/
@@ -363,10 +468,17 @@ theorem reachable_no_twins_fixed (env : Env) (hv : env.v.fixResolve = true) (ops
 
 /-! ## witnesses of the defects the model shares with the code (Lean-checked) -/
 
+/-- "GC": a GGUF whose chat template is recognised; the named template is "T", its parameters `{"a":1}` -/
+def gChat : Bytes := [71, 67]
+def autoT : Bytes := [84]
+def autoP : Bytes := strBytes "{\"a\":1}\n"
+
 /-- a toy world: the "hash" of a content is its text; anything that starts with 'G' is a GGUF file -/
 def wEnv : Env :=
   { hash := fun c => String.ofList (c.map (fun b => Char.ofNat b.toNat))
-    gguf := fun c => if c.head? = some 71 then some ⟨"llama", "0", "unknown"⟩ else none
+    gguf := fun c =>
+      if c = gChat then some ⟨"llama", "0", "unknown", some (autoT, some autoP)⟩
+      else if c.head? = some 71 then some ⟨"llama", "0", "unknown", none⟩ else none
     v := .pinned }
 
 /-- the same toy world with all three repairs in -/
@@ -375,7 +487,7 @@ def rEnv : Env := { wEnv with v := .repaired }
 def nm (ns m : String) : Name := ⟨"registry.ollama.ai", ns, m, "latest"⟩
 def gG : Bytes := [71]
 def ch0 : Choice := ⟨[], [], false⟩
-def mk (n : Name) (f : Form) : Op := .create ⟨n, none, [⟨f, "G"⟩], none, none, []⟩
+def mk (n : Name) (f : Form) : Op := .create ⟨n, none, [⟨f, "G"⟩], none, none, [], []⟩
 
 /-- does some readable manifest point to a blob that is not there? -/
 def incompleteB (st : Store) : Bool :=
@@ -451,11 +563,38 @@ theorem F16b_breaks_NoTwins :
     error then success, `a` is now a manifest without layers (listed; `show` answers 404) and its blob is gone. -/
 theorem N1_create_continues_witness :
     let st := run wEnv Store.empty [(.upload ⟨.colon, "G"⟩ gG, ch0), (mk (nm "library" "a") .colon, ch0)]
-    let r := step wEnv st (.create ⟨nm "library" "a", some (nm "nobody" "missing"), [], none, none, []⟩) ch0
+    let r := step wEnv st (.create ⟨nm "library" "a", some (nm "nobody" "missing"), [], none, none, [], []⟩) ch0
     showAt wEnv st (nm "library" "a") = "h200" ∧ r.2 = ["e500", "s"] ∧
     ((r.1.readableAt (nm "library" "a")).map (·.layers)) = some [] ∧ r.1.blob "G" = none ∧
     (listed r.1).contains (nm "library" "a") = true ∧ showAt wEnv r.1 (nm "library" "a") = "h404" := by
   decide +kernel
+
+/-- **N2, a dropped auto-detected layer takes an override's blob with it.**  upload "GC" (recognised chat
+    template with parameters); create a {files, system := <those parameters' JSON>, parameters {b: 2}}: the
+    create succeeds, `a` is listed, its system layer's blob is gone.  The request does not meet `ApartOp`;
+    with N2 repaired the same request is fine. -/
+theorem N2_witness :
+    let st := run wEnv Store.empty [(.upload ⟨.colon, "GC"⟩ gChat, ch0)]
+    let req : CreateReq := ⟨nm "library" "a", none, [⟨.colon, "GC"⟩], none, some autoP, [], [("b", "2")]⟩
+    let r := step wEnv st (.create req) ch0
+    let r' := step rEnv st (.create req) ch0
+    r.2 = ["s"] ∧ (listed r.1).contains (nm "library" "a") = true ∧ incompleteB r.1 = true ∧
+    showAt wEnv r.1 (nm "library" "a") = "h404" ∧
+    r'.2 = ["s"] ∧ incompleteB r'.1 = false ∧ showAt rEnv r'.1 (nm "library" "a") = "h200" := by
+  decide +kernel
+
+theorem N2_breaks_NameInv :
+    ¬ NameInv wEnv (step wEnv (run wEnv Store.empty [(.upload ⟨.colon, "GC"⟩ gChat, ch0)])
+      (.create ⟨nm "library" "a", none, [⟨.colon, "GC"⟩], none, some autoP, [], [("b", "2")]⟩) ch0).1 :=
+  not_NameInv_of_incompleteB _ _ N2_witness.2.2.1
+
+/-- an explicit TEMPLATE equal to the auto-detected one while nothing stored references that blob (the
+    history of the seeded change C04-B): fine on the real order (drop, then store) -/
+theorem auto_template_override_ok :
+    let st := run wEnv Store.empty [(.upload ⟨.colon, "GC"⟩ gChat, ch0)]
+    let r := step wEnv st (.create ⟨nm "library" "a", none, [⟨.colon, "GC"⟩], some (autoT, true), none, [], []⟩) ch0
+    r.2 = ["s"] ∧ incompleteB r.1 = false ∧ (r.1.blob "T").isSome = true ∧
+    showAt wEnv r.1 (nm "library" "a") = "h200" := by decide +kernel
 
 /-! ## the same histories with the repairs in (Lean-checked) -/
 
@@ -484,7 +623,7 @@ theorem F16b_repaired_witness :
 /-- N1 repaired: the failed create reports only the error and `a` is as it was -/
 theorem N1_repaired_witness :
     let st := run rEnv Store.empty [(.upload ⟨.colon, "G"⟩ gG, ch0), (mk (nm "library" "a") .colon, ch0)]
-    let r := step rEnv st (.create ⟨nm "library" "a", some (nm "nobody" "missing"), [], none, none, []⟩) ch0
+    let r := step rEnv st (.create ⟨nm "library" "a", some (nm "nobody" "missing"), [], none, none, [], []⟩) ch0
     r.2 = ["e500"] ∧ r.1.man (nm "library" "a") = st.man (nm "library" "a") ∧
     (r.1.blob "G").isSome = true ∧ showAt rEnv r.1 (nm "library" "a") = "h200" := by decide +kernel
 
@@ -496,7 +635,7 @@ example :
     let st := run wEnv Store.empty
       [(.upload ⟨.colon, "G"⟩ gG, ch0), (mk (nm "library" "a") .colon, ch0),
        (.copy (nm "library" "a") (nm "library" "c"), ch0),
-       (.create ⟨nm "library" "a", some (nm "library" "a"), [], none, some [83], []⟩, ch0)]
+       (.create ⟨nm "library" "a", some (nm "library" "a"), [], none, some [83], [], []⟩, ch0)]
     incompleteB st = false ∧ st.readableNames.length = 2 ∧ st.keyReferenced "G" = true ∧
     (st.blob "S").isSome = true := by decide +kernel
 
@@ -533,17 +672,22 @@ example :
     let st := run wEnv Store.empty
       [(.upload ⟨.colon, "G"⟩ gG, ch0), (mk (nm "library" "a") .colon, ch0),
        (.copy (nm "library" "a") (nm "library" "c"), ch0),
-       (.create ⟨nm "library" "a", some (nm "library" "a"), [], none, some [83], []⟩, ch0)]
+       (.create ⟨nm "library" "a", some (nm "library" "a"), [], none, some [83], [], []⟩, ch0)]
     HashInj wEnv ∧ Inv wEnv st ∧ Canonical st := by
-  refine ⟨wEnv_inj, history_preserves_Inv rfl wEnv_inj _ ?_ _ (empty_Inv wEnv).2 (empty_Inv wEnv).1⟩
-  intro p hp
-  simp only [List.mem_cons, List.not_mem_nil, or_false] at hp
-  rcases hp with rfl | rfl | rfl | rfl
-  · trivial
-  · intro d hd
-    simp only [List.mem_singleton] at hd
-    subst hd; rfl
-  · trivial
-  · intro d hd; cases hd
+  exact ⟨wEnv_inj, history_preserves_Inv rfl wEnv_inj _ _ (runGuard_of_B _ _ (by decide +kernel))
+    (empty_Inv wEnv).2 (empty_Inv wEnv).1⟩
+
+/-- the guard `ApartOp` is met by creates WITH auto-detected layers too (here: an explicit template equal to
+    the auto-detected one, and a re-create over it), and refuses exactly the N2 request -/
+example :
+    let ok : List (Op × Choice) :=
+      [(.upload ⟨.colon, "GC"⟩ gChat, ch0),
+       (.create ⟨nm "library" "a", none, [⟨.colon, "GC"⟩], some (autoT, true), none, [], []⟩, ch0),
+       (.create ⟨nm "library" "a", none, [⟨.colon, "GC"⟩], none, some autoT, [[77]], [("b", "2")]⟩, ch0)]
+    let bad : List (Op × Choice) :=
+      [(.upload ⟨.colon, "GC"⟩ gChat, ch0),
+       (.create ⟨nm "library" "a", none, [⟨.colon, "GC"⟩], none, some autoP, [], [("b", "2")]⟩, ch0)]
+    runGuardB wEnv Store.empty ok = true ∧ incompleteB (run wEnv Store.empty ok) = false ∧
+    runGuardB wEnv Store.empty bad = false ∧ runGuardB rEnv Store.empty bad = true := by decide +kernel
 
 end OllamaVerif.C04
